@@ -74,8 +74,8 @@ package dns
 //@   assume at "switch action := srv.MsgAcceptFunc(dh); action {" policy: action == MsgAccept || action == MsgReject || action == MsgRejectNotImplemented || action == MsgIgnore
 // RFC 8945 5.3: a signed request is verified against an empty prior MAC in full mode, and its reply is signed in full
 // mode over the request's MAC - whatever an earlier exchange on the same connection (a transfer, timers only) left
-//@   callsite "TsigVerifyWithProvider" tsigstatereq: len(arg2) == 0 && !arg3 && same(arg0, m) && arg1 == w.tsigProvider [C11 C14]
-//@   callsite "ServeDNS" tsigstate: w.tsigProvider != nil && called("IsTsig") && callres("IsTsig") != nil ==> !w.tsigTimersOnly && same(w.tsigRequestMAC, callres("IsTsig").MAC) && w.tsigStatus == callres("TsigVerifyWithProvider") [C11 C14]
+//@   callsite "TsigVerifyWithProvider" tsigstatereq: len(arg2) == 0 && !arg3 && same(arg0, m) && arg1 == w.tsigProvider [C11 C14 C15]
+//@   callsite "ServeDNS" tsigstate: w.tsigProvider != nil && called("IsTsig") && callres("IsTsig") != nil ==> !w.tsigTimersOnly && same(w.tsigRequestMAC, callres("IsTsig").MAC) && w.tsigStatus == callres("TsigVerifyWithProvider") [C11 C14 C15]
 //@   callsite "WriteMsg" replyid: arg1.Id == dh.Id
 //@   callsite "WriteMsg" replyqr: arg1.Response
 //@   callsite "WriteMsg" replyrc: arg1.Rcode == (action == MsgRejectNotImplemented ? 4 : 1)
